@@ -220,6 +220,11 @@ func SameCommitment(a, b [32]byte) bool { return a == b }
 // which is then tried again (sequential, cooperative model of a two-party hand-shake).
 func WhenBlocked(f func()) { go f() }
 
+// InlineGo: from here on the engine runs every `go f(...)` of the code under check to completion at the go statement (one
+// sequential schedule). For harnesses whose goroutines only fill buffered channels and return, so that the native concurrent
+// run has the same outcome. Natively a no-op.
+func InlineGo() {}
+
 // Assert states the property.
 func Assert(name string, c bool) {
 	if !c {
